@@ -82,7 +82,7 @@ def gen_history(d, qcap, flags, lines=True, holds=True, long_history=True, line_
         return d.below(nev)
     for _ in range(nops):
         step += d.pick([0, 0, 0, 1, 1, 2, 3, 5, 9, 20, 60, 150])
-        k = d.weighted([(8, "trig"), (2, "full"), (2, "buf"), (1, "proc"), (2, "burst")])
+        k = d.weighted([(8, "trig"), (2, "full"), (2, "buf"), (1, "proc"), (2, "burst"), (1, "dis")])
         if k == "trig":
             actions.append([S.AT_STEP, step, S.WA_TRIG, target(), d.pick([0, 1, 0, 1, 2, 3]), None])
         elif k == "burst":
@@ -94,6 +94,10 @@ def gen_history(d, qcap, flags, lines=True, holds=True, long_history=True, line_
             actions.append([S.AT_STEP, step, S.WA_ISFULL, 0, 0, None])
             if d.below(2):
                 actions.append([S.AT_STEP, step, S.WA_TRIG, d.below(nev), d.below(2), None])
+        elif k == "dis":
+            # the application flips the disable flag of an event command at an arbitrary moment: it hides the command from the
+            # input stream only - events that were accepted are delivered whole
+            actions.append([S.AT_STEP, step, S.WA_SETDIS, d.below(nev), d.below(2), None])
         elif k == "buf":
             actions.append([S.AT_STEP, step, S.WA_ISBUFFERED, d.below(nev), d.pick([-1, 1, 3]), None])
         else:
